@@ -14,17 +14,19 @@
 EXTENDS TLC, Json, Sequences, FiniteSets, Naturals
 
 CONSTANTS FollowRootLink,  \* TRUE: the algorithm of the pinned tree (negative control)
+          Wide,            \* TRUE (thorough tier): every entry kind at every position, one more level
           EmitTR
 
 \* path universe: canary tree C beside <layers> (L), sibling layer L/y, the layer L/x
 Paths == {"C", "C/f", "C/d", "C/d/g", "L", "L/y", "L/y/f", "L/y.toml", "L/x.toml",
-          "L/x.sbom.cdx.json", "L/x", "L/x/a", "L/x/b", "L/x/a/c"}
+          "L/x.sbom.cdx.json", "L/x", "L/x/a", "L/x/b", "L/x/a/c", "L/x/b/d"}
 Parent(p) == CASE p \in {"C/f", "C/d"} -> "C" [] p = "C/d/g" -> "C/d"
                [] p \in {"L/y", "L/y.toml", "L/x.toml", "L/x.sbom.cdx.json", "L/x"} -> "L"
                [] p = "L/y/f" -> "L/y" [] p \in {"L/x/a", "L/x/b"} -> "L/x" [] p = "L/x/a/c" -> "L/x/a"
+               [] p = "L/x/b/d" -> "L/x/b"
                [] OTHER -> "/"
 \* what belongs to layer x
-Own == {"L/x", "L/x/a", "L/x/b", "L/x/a/c", "L/x.toml", "L/x.sbom.cdx.json"}
+Own == {"L/x", "L/x/a", "L/x/b", "L/x/a/c", "L/x/b/d", "L/x.toml", "L/x.sbom.cdx.json"}
 
 None == [k |-> "none", mode |-> "-", tgt |-> "-"]
 Dir(m)  == [k |-> "dir",  mode |-> m, tgt |-> "-"]
@@ -50,6 +52,7 @@ Base == [p \in Paths |->
              [] OTHER -> None]
 
 LinkTargets == {"C", "C/f", "C/d", "L/y", "L/y/f", "L", "L/x", "L/x/a", "nowhere"}
+\* (no generated link target is itself a link except inside the layer, where links are unlinked, never followed)
 
 \* entries a layer directory may contain
 LeafKinds == {File(m) : m \in FileModes} \cup {Link(t) : t \in LinkTargets}
@@ -63,11 +66,20 @@ Trees ==
         c \in {None, File("r--"), Link("C/d"), Link("L/x")}, t \in {None, File("rw-")},
         s \in {None, File("rw-")} }
   \cup
+  (IF ~Wide THEN {} ELSE
+  { [Base EXCEPT !["L/x"] = Dir(rm), !["L/x/a"] = a, !["L/x/b"] = b, !["L/x/a/c"] = c, !["L/x/b/d"] = dd,
+                 !["L/x.toml"] = File("rw-"), !["L/x.sbom.cdx.json"] = s]
+      : rm \in DirModes, a \in LeafKinds \cup DirEntry \cup {None}, b \in LeafKinds \cup DirEntry \cup {None},
+        c \in {None, File("r--"), File("rw-"), Dir("---"), Dir("r-x")} \cup {Link(x) : x \in {"C/d", "L/x", "L", "nowhere"}},
+        dd \in {None, File("r--"), Dir("---"), Link("C"), Link("L/x/a"), Link("nowhere")},
+        s \in {None, File("rw-")} })
+  \cup
   \* the layer path itself is a symlink (to a directory elsewhere, a file, nothing) or a file
   { [Base EXCEPT !["L/x"] = r, !["L/x.toml"] = t] : r \in {Link(x) : x \in {"C", "C/d", "L/y", "C/f", "nowhere"}},
                                                    t \in {None, File("rw-")} }
 
-WellFormedTree(f) == f["L/x/a/c"].k # "none" => f["L/x/a"].k = "dir"
+WellFormedTree(f) == /\ f["L/x/a/c"].k # "none" => f["L/x/a"].k = "dir"
+                     /\ f["L/x/b/d"].k # "none" => f["L/x/b"].k = "dir"
 
 -----------------------------------------------------------------------------
 (* system calls *)
